@@ -114,6 +114,33 @@ BASE = {"C": 0, "D": 2, "E": 4, "F": 5, "G": 7, "A": 9, "B": 11}
 TOL = F(1, 10 ** 9)
 
 # a few General MIDI programs (0-based, as sent on the wire) used as an anchor for "the MIDI instrument's program"
+# General MIDI level 1 sound set, program numbers 0..127 in order (the standard's list in the spelling mingus uses;
+# checked once against the standard's families: 8 per family, piano, chromatic percussion, organ, guitar, bass,
+# strings, ensemble, brass, reed, pipe, synth lead, synth pad, synth effects, ethnic, percussive, sound effects)
+GM_STANDARD = [
+    'Acoustic Grand Piano', 'Bright Acoustic Piano', 'Electric Grand Piano', 'Honky-tonk Piano',
+    'Electric Piano 1', 'Electric Piano 2', 'Harpsichord', 'Clavi', 'Celesta', 'Glockenspiel', 'Music Box',
+    'Vibraphone', 'Marimba', 'Xylophone', 'Tubular Bells', 'Dulcimer', 'Drawbar Organ', 'Percussive Organ',
+    'Rock Organ', 'Church Organ', 'Reed Organ', 'Accordion', 'Harmonica', 'Tango Accordion',
+    'Acoustic Guitar (nylon)', 'Acoustic Guitar (steel)', 'Electric Guitar (jazz)', 'Electric Guitar (clean)',
+    'Electric Guitar (muted)', 'Overdriven Guitar', 'Distortion Guitar', 'Guitar harmonics', 'Acoustic Bass',
+    'Electric Bass (finger)', 'Electric Bass (pick)', 'Fretless Bass', 'Slap Bass 1', 'Slap Bass 2',
+    'Synth Bass 1', 'Synth Bass 2', 'Violin', 'Viola', 'Cello', 'Contrabass', 'Tremolo Strings',
+    'Pizzicato Strings', 'Orchestral Harp', 'Timpani', 'String Ensemble 1', 'String Ensemble 2',
+    'SynthStrings 1', 'SynthStrings 2', 'Choir Aahs', 'Voice Oohs', 'Synth Voice', 'Orchestra Hit', 'Trumpet',
+    'Trombone', 'Tuba', 'Muted Trumpet', 'French Horn', 'Brass Section', 'SynthBrass 1', 'SynthBrass 2',
+    'Soprano Sax', 'Alto Sax', 'Tenor Sax', 'Baritone Sax', 'Oboe', 'English Horn', 'Bassoon', 'Clarinet',
+    'Piccolo', 'Flute', 'Recorder', 'Pan Flute', 'Blown Bottle', 'Shakuhachi', 'Whistle', 'Ocarina',
+    'Lead1 (square)', 'Lead2 (sawtooth)', 'Lead3 (calliope)', 'Lead4 (chiff)', 'Lead5 (charang)',
+    'Lead6 (voice)', 'Lead7 (fifths)', 'Lead8 (bass + lead)', 'Pad1 (new age)', 'Pad2 (warm)',
+    'Pad3 (polysynth)', 'Pad4 (choir)', 'Pad5 (bowed)', 'Pad6 (metallic)', 'Pad7 (halo)', 'Pad8 (sweep)',
+    'FX1 (rain)', 'FX2 (soundtrack)', 'FX 3 (crystal)', 'FX 4 (atmosphere)', 'FX 5 (brightness)',
+    'FX 6 (goblins)', 'FX 7 (echoes)', 'FX 8 (sci-fi)', 'Sitar', 'Banjo', 'Shamisen', 'Koto', 'Kalimba',
+    'Bag pipe', 'Fiddle', 'Shanai', 'Tinkle Bell', 'Agogo', 'Steel Drums', 'Woodblock', 'Taiko Drum',
+    'Melodic Tom', 'Synth Drum', 'Reverse Cymbal', 'Guitar Fret Noise', 'Breath Noise', 'Seashore',
+    'Bird Tweet', 'Telephone Ring', 'Helicopter', 'Applause', 'Gunshot',
+]
+assert len(GM_STANDARD) == 128 and len(set(GM_STANDARD)) == 128
 GM_ANCHORS = {"Acoustic Grand Piano": 0, "Harpsichord": 6, "Church Organ": 19, "Violin": 40, "Trumpet": 56,
               "Flute": 73, "Gunshot": 127}
 
@@ -903,6 +930,13 @@ def run(tier, seed):
         if not (0 <= prog < len(gm) and gm[prog] == nm and gm.count(nm) == 1):
             R.fail("Sequencer.play_Tracks", "one-instrument-change-per-track",
                    "MidiInstrument.names does not list %r as program %d" % (nm, prog), nm)
+
+    if list(gm) != GM_STANDARD:
+        bad = [i for i in range(max(len(gm), 128)) if i >= len(gm) or i >= 128 or gm[i] != GM_STANDARD[i]]
+        R.fail("Sequencer.play_Tracks", "one-instrument-change-per-track",
+               "MidiInstrument.names deviates from the General MIDI list (%d entries; first deviation at program %d: %r)"
+               % (len(gm), bad[0], gm[bad[0]] if bad[0] < len(gm) else None), {"program": bad[0]})
+    gm = GM_STANDARD        # the expectation side of the driver never reads the library's own table
 
     def make_instr(kind):
         """kind: None | 'plain' | 'piano' | 'guitar' | ('midi', program, set_nr) | ('midi-unknown', name)"""
